@@ -20,7 +20,7 @@ CHECKS = {
          "DESIGN.md §4 C14"),
  "C17": ("abstract stack-height analysis over the K1 state graph of the loop driver; static call-graph cycle check",
          "Decides the structural cause of stack growth: with a body that completes synchronously (Normal/Continue), before and after a resumption, the abstract activation stack at successive body calls of For/While/Loop must not get deeper (also for a loop nested in a loop, incl. the depth at which the inner loop's condition and post statement are reached in successive runs of the same loop value); Bind/BindRecv/Delay/Combine values run repeatedly reach their caller-supplied function at the same depth in every run; no static recursion in package seq.",
-         "No numeric bound is decided; depth contributed by user thunks is assumed bounded by term size; delegation depth grows linearly by construction.",
+         "Nested loops are examined with the inner loop ending on its condition and with the inner loop left by a break. No numeric bound is decided; depth contributed by user thunks is assumed bounded by term size; delegation depth grows linearly by construction.",
          "DESIGN.md §4 C17"),
  "C18": ("resolved-program scan for go/defer/recover/select/sync in the runtime and in emitted AST; path rule on MoveNext/Send",
          "Decides the whole mechanism the property names: the runtime has no construct that could swallow, defer or move a panic to another goroutine; the advance calls the pending resumption synchronously and overwrites current/next only afterwards; resumptions run their thunk inside the call; the rewriter never emits go/defer/select/recover.",
@@ -36,7 +36,7 @@ CHECKS = {
          "DESIGN.md §4 C12"),
  "C01": ("decision-table extraction by abstract interpretation (block tables, termination checker vs spec reference on enumerated shapes, branch pass driven over context nestings), lowering-vs-runtime signal agreement, no-loss and template rules on the symbolic rewriting of every statement kind",
          "Whole-program equivalence is not decided. Decided, for every path of the code that implements them: the combine / implicit-Normal / yield-freeness tables of the block abstraction; the break/continue pass against the Go spec's target rule for every nesting of native contexts up to depth 3; the termination checker never over-approximates the spec's 'terminating statements' on ~2000 enumerated shapes; Loop/While/For choice and argument roles; the lowering of every break/continue target agrees with the signal tables extracted from the runtime in the same run; plus the runtime tables of C08.",
-         "Known findings D19 (continue with a yielding for-post) and D33 (a break nested in a yielding statement of a switch clause: the repair of D18 is partial) are recorded in known_findings.json; the containment scan that decides which headers and switch breaks need lowering is decided too (RW.ORACLE containsYield); Go closure semantics, go/ssa and go/ast grammar facts are trusted.",
+         "Known findings D19 (continue with a yielding for-post) and D33 (a break nested in a yielding statement of a switch clause: the repair of D18 is partial) are recorded in known_findings.json; the containment scan that decides which headers and switch breaks need lowering is decided too (RW.ORACLE containsYield), and the breaks of a switch none of whose clauses yields stay breaks; Go closure semantics, go/ssa and go/ast grammar facts are trusted.",
          "DESIGN.md §4 C01"),
  "C03": ("template extraction by abstract interpretation (constructed AST as heap tree with holes) + scoping obligations on the templates",
          "Decides the structural conditions of 'same variable as in the source': continuation nested in the Bind thunk; combine only after statements with their own scope; ':=' initialisers of for/switch/type-switch hoisted into a fresh block (inside generators only), never moved otherwise; ':=' range bodies nested as one block after the generated binding, with the loop's own token; both halves of a Combine are thunks; iterator temporaries from gensym.",
@@ -52,7 +52,7 @@ CHECKS = {
          "DESIGN.md §4 C05"),
  "C06": ("template extraction of rewriteForRange / rewriteIter / result type; pass-order rule",
          "Decides: consumer loops evaluate their operand exactly once, pull exactly one element per iteration in the loop condition (no prefetch), bind with the loop's own ':='/'=' token; the iterator type is replaced iff the iterator predicate holds, uniformly by seq.Iterator[T] under the file's import name; the post-less runtime loops the consumer is lowered to evaluate their condition once per iteration and never after a break (SEQ.FOR rows with a nil post).",
-         "Completeness of the type replacement in every syntactic position shows as a build error and is not decided; D15 recorded (D32, the loop without a variable, repaired). The iterator-type predicate itself is decided by identity of the type, never by its name (RW.ITERPRED), and what it remembers does not outlive a file.",
+         "Completeness of the type replacement in every syntactic position shows as a build error and is not decided; D15 recorded (D32, the loop without a variable, repaired). The iterator-type predicate itself is decided by identity of the type, never by its name (RW.ITERPRED), and what it remembers does not outlive a file. The '=' form is checked for left-hand sides that are fields, elements or dereferences; every path of the pass that finds a range statement asks whether its operand is an iterator.",
          "DESIGN.md §4 C06"),
  "C02": ("abstract interpretation of the seq constructors and resumptions (laziness, suspension, take-and-clear), template extraction of the generator wrapper / Bind / Combine / loop arguments, pattern-term extraction of the Delay-elision whitelist",
          "Decides the structural reasons nothing runs early, late or twice: constructors run nothing; Bind suspends; resumptions run the thunk once inside the advance; Start runs nothing; exhaustion is absorbing; the generator body is exactly Start(Delay(thunk)); the continuation after a yield is the Bind thunk and the yielded expression its unwrapped first argument; loop cond/post/body and both Combine halves are thunks; a Delay is only elided around certified effect-free constructors or Bind with a basic literal.",
@@ -68,7 +68,7 @@ CHECKS = {
          "DESIGN.md §4 C11"),
  "C13": ("resolved enumeration of all Cursor mutator call sites + abstract evaluation of the file-level callbacks over node kinds (edits only under API-membership predicates) + call-graph confinement; eta-reduction table; pass0 in nested closures; branch pass boundary",
          "Decides that bystander code is only touched under a generator / iterator-type / Yield-call predicate, that the one pass rewriting arbitrary closures (eta reduction) keeps every closure whose reduction changes meaning, that returns/initialisers/branches inside ordinary closures nested in generators are left alone, and that no declaration is added.",
-         "Doc comments in directive positions (file, declaration, spec) are decided to survive the installed comment list (collected per node type, traversal not pruned, merged in source order); loss of free-floating and line comments is behaviour-neutral and not judged; go-imports trusted. Also decided: a bystander type that only spells like co.Iter is left alone (RW.ITERPRED); a labelled range loop in an ordinary closure survives the range pass (D36 repaired); a processed file is chosen for writing before any optimisation pass has run (D37 repaired); memoised verdicts are keyed by what determines them.",
+         "Doc comments in directive positions (file, declaration, spec) are decided to survive the installed comment list (collected per node type, traversal not pruned, merged in source order); loss of free-floating and line comments is behaviour-neutral and not judged; go-imports trusted. Also decided: a bystander type that only spells like co.Iter is left alone (RW.ITERPRED); a labelled range loop in an ordinary closure survives the range pass (D36 repaired); a processed file is chosen for writing before any optimisation pass has run (D37 repaired) and is processed once even when it is visited twice (D39 repaired); memoised verdicts are keyed by what determines them.",
          "DESIGN.md §4 C13"),
  "C15": ("resolved-program scans (map ranges, nondeterminism sources), per-file reset path rule on rewriteFile, counter lifetime analysis of gensym, event-order rule on the intermediate directory, SSA backward slice of memo tables (key determines value)",
          "Decides the absence of every source of run-to-run or context dependence in the output path: no map iteration, no time/rand/pid/env, per-file state re-initialised before the first pass, unique-name counter advanced once per temporary and alive for exactly one file, intermediate directory emptied before use and removed afterwards, each stage loads the directory the previous one wrote and removes nothing else, iterator temporaries named through gensym, no table outliving a call filled with a value its key does not determine (OPT.MEMO), no stage loaded with type errors suppressed (DET.PARTIALTYPES: recorded finding D31).",
